@@ -174,11 +174,36 @@ func r03a(c *core.Ctx) {
 		c.Bad("makeEmptyResp-assigns-nonnil", mer.Pos(), mer, "makeEmptyResp stores a non-nil message into rc.Response.Msg on every path", "no store on every path")
 	}
 	// handleReq: every return is preceded on all paths by an assignment
+	// assigning helpers: same-package functions (other than handleReq) that store into <param>.Response.Msg, or call
+	// makeEmptyResp, on every one of their paths
+	assignHelpers := map[*ssa.Function]bool{}
+	for _, call := range core.Calls(hr) {
+		h := core.StaticCallee(call)
+		if h == nil || h == mer || h == hr || h.Pkg != hr.Pkg || h.Blocks == nil || assignHelpers[h] {
+			continue
+		}
+		inH := func(in ssa.Instruction) bool {
+			if st, ok := in.(*ssa.Store); ok && isRespMsgAddr(st.Addr) {
+				return true
+			}
+			ci, ok := in.(ssa.CallInstruction)
+			return ok && core.StaticCallee(ci) == mer
+		}
+		has := false
+		core.EachInstr(h, func(_ *ssa.BasicBlock, _ int, in ssa.Instruction) {
+			if inH(in) {
+				has = true
+			}
+		})
+		if has && core.Reach(h, nil, core.IsReturn, inH) == nil {
+			assignHelpers[h] = true
+		}
+	}
 	isAssign := func(in ssa.Instruction) bool {
 		if st, ok := in.(*ssa.Store); ok && isRespMsgAddr(st.Addr) {
 			return true
 		}
-		if ci, ok := in.(ssa.CallInstruction); ok && core.StaticCallee(ci) == mer {
+		if ci, ok := in.(ssa.CallInstruction); ok && (core.StaticCallee(ci) == mer || assignHelpers[core.StaticCallee(ci)]) {
 			return true
 		}
 		return false
@@ -195,6 +220,30 @@ func r03a(c *core.Ctx) {
 			c.Check(nn, "handleReq-assigns-nonnil:"+core.Expr(st.Val), st.Pos(), hr, "the assigned response is non-nil on that path (cache hit on its != nil edge, forward result on its err == nil edge)", d)
 		}
 	})
+	// a helper stores one of its parameters: the argument is judged where handleReq calls the helper
+	for h := range assignHelpers {
+		core.EachInstr(h, func(_ *ssa.BasicBlock, _ int, in ssa.Instruction) {
+			st, ok := in.(*ssa.Store)
+			if !ok || !isRespMsgAddr(st.Addr) {
+				return
+			}
+			par, isPar := core.Strip(st.Val).(*ssa.Parameter)
+			if !isPar {
+				nn, d := nonNilMsgSource(c, st.Val, st.Block(), contract)
+				c.Check(nn, "handleReq-assigns-nonnil:"+core.FuncName(h), st.Pos(), h, "the assigned response is non-nil on that path", d)
+				return
+			}
+			for _, call := range callsOfFn(hr, h) {
+				args := core.CallArgs(call)
+				for k, q := range h.Params {
+					if q == par && k < len(args) {
+						nn, d := nonNilMsgSource(c, args[k], call.Block(), contract)
+						c.Check(nn, "handleReq-assigns-nonnil:"+core.Expr(args[k]), call.Pos(), hr, "the assigned response is non-nil on that path (cache hit on its != nil edge, forward result on its err == nil edge)", d)
+					}
+				}
+			}
+		})
+	}
 	// handleServerReq: a deferred closure assigns a non-nil response when none is set; registered before any return
 	var def *ssa.Defer
 	for _, call := range core.Calls(hs) {
